@@ -154,6 +154,11 @@ def match_known(rec, known, prop_id):
         tc = k.get('trace_contains')
         if tc and not all(any(t in s for s in rec['trace']) for t in tc):
             continue
+        ic = k.get('injection_contains')
+        if ic is not None:
+            injs = (rec.get('info') or {}).get('injections') or []
+            if not injs or not all(any(s in str(r[3]) for s in ic) for r in injs):
+                continue
         tn = k.get('trace_excludes')
         if tn and any(any(t in s for s in rec['trace']) for t in tn):
             continue
@@ -285,7 +290,9 @@ def report(prop_id, tier, seed, results, mod, a, t0, write=True, extra=None):
         rep = {'property': prop_id, 'obligation': o['id'], 'site': site, 'kind': o['kind'], 'function': o['func'],
                'line': o['line'], 'text': o['text'], 'lemma': o['lemma'], 'solver': o['backend'], 'status': o['status'],
                'model': o.get('model'), 'goal': o.get('goal'), 'hypotheses_tail': o.get('hyps'), 'trace': o['trace'],
-               'other_paths_same_site': [x['id'] for x in obs[1:20]], 'repo': a.repo}
+               'other_paths_same_site': [x['id'] for x in obs[1:20]], 'repo': a.repo,
+               'injections': o.get('info', {}).get('injections'),
+               'injections_other_paths': [x.get('info', {}).get('injections') for x in obs[1:40]]}
         reproduced = None
         if not a.no_replay and hasattr(mod, 'replay'):
             try:
